@@ -80,6 +80,7 @@ PLANS = {
                   ex("spng3", "spng", 3, 3, kinds=["mstream"], modes=["E"], invariants=INV_SPANS),
                   ex("spng4", "spng", 4, 3, kinds=["mapped"], modes=["E"], invariants=INV_SPANS),
                   ex("spn2", "spn", 2, 3, kinds=["slice", "array", "bytes"], modes=["E"], invariants=INV_SPANS),
+                  ex("slcT", "slcT", 1, 4, kinds=["slice", "array", "bytes", "str"], modes=["E"], invariants=INV_SPANS),
                   ex("gapT", "gapT", 1, 3, alphabet=["a", "b", "E"], kinds=["str", "mapped"], modes=["E"], invariants=INV_SPANS),
                   ex("spni3", "spni", 3, 3, kinds=["iter"], modes=["E"], invariants=INV_SPANS), ex("gapTi", "gapTi", 1, 3, kinds=["iter"], modes=["E"], invariants=INV_SPANS),
                   ex("spnr3", "spnr", 3, 3, kinds=["mapped"], modes=["E"], invariants=INV_SPANS),
@@ -109,6 +110,7 @@ PLANS = {
                   ex("spng3k", "spng", 3, 3, kinds=["mstream", "wctx", "mapspan"], modes=["E"]),
                   ex("gapTk", "gapT", 1, 3, kinds=["mapped", "mstream", "wctx", "io"], modes=["E"]),
                   ex("spni3", "spni", 3, 3, kinds=["iter"], modes=["E"]), ex("gapTi", "gapTi", 1, 3, kinds=["iter"], modes=["E"]),
+                  rec("longS", "seek", 24, 7, 1100, minlen=500, kinds=["stream", "bstream", "mstream"]),
                   rec("pegRk", "peg", 2500, 8, 8, kinds=ALL_KINDS), rec("spngRk", "spng", 1500, 8, 8, kinds=["mapped", "mstream", "stream", "wctx", "mapspan", "io"])],
         "thorough": [ex("peg2k", "peg", 2, 3, kinds=ALL_KINDS), ex("rep2k", "rep", 2, 4, alphabet=["a", ","], kinds=ALL_KINDS, modes=["E"]),
                      ex("rcv3k", "rcv", 3, 3, kinds=["bstream", "mstream", "wctx", "io"], modes=["E"]),
@@ -117,6 +119,7 @@ PLANS = {
                      ex("spng4k", "spng", 4, 3, kinds=["mapped", "mstream", "wctx", "mapspan"], modes=["E"]),
                      ex("gapTk", "gapT", 1, 4, kinds=ALL_KINDS),
                      ex("spni4", "spni", 4, 3, kinds=["iter", "mapped"], modes=["E"]), ex("gapTi", "gapTi", 1, 4, kinds=["iter"]),
+                     rec("longS", "seek", 300, 8, 1600, minlen=500, kinds=["stream", "bstream", "mstream", "io"], timeout=3000),
                      rec("pegRk", "peg", 30000, 10, 10, kinds=ALL_KINDS), rec("spngRk", "spng", 20000, 10, 10, kinds=["mapped", "mstream", "stream", "wctx", "mapspan", "io"])],
     },
     "C08": {
